@@ -34,6 +34,12 @@ pub struct Sess {
     pub evict_direct: bool,
     /// the calls of the straight-line script the next EVAL consists of (set by the generator)
     pub script_parts: Option<Vec<Command>>,
+    /// the executor transcription (`Model.Executor`, `XC` lines) follows this session: set by
+    /// `reset` / `reset_with_epoch`, which emit the `XCFG` line
+    pub xc: bool,
+    /// every clock move since the last emitted op (the transcription needs all of them, also a
+    /// `set_time` to the same instant: it evicts)
+    pub pending_clock: Vec<(u64, &'static str)>,
 }
 
 /// the public entry points of `CommandExecutor` that run a data command
@@ -102,7 +108,7 @@ impl Sess {
             }
         }
         ex.set_time(VirtualTime::from_millis(now));
-        Sess { ex, now, moved: None, epoch_ms: cfg.ms(), via: Via::Execute, last_entry: "execute", evict_direct: false, script_parts: None }
+        Sess { ex, now, moved: None, epoch_ms: cfg.ms(), via: Via::Execute, last_entry: "execute", evict_direct: false, script_parts: None, xc: false, pending_clock: Vec::new() }
     }
 
     /// Unix time in ms as the executor sees it (what the reference model calls `now`)
@@ -115,6 +121,9 @@ impl Sess {
     pub fn set_now(&mut self, t: u64, evict: bool) {
         self.moved = if t != self.now || !evict { Some(evict) } else { None };
         self.now = t;
+        if self.xc {
+            self.pending_clock.push((t, if evict { if self.evict_direct { "evict_expired_direct" } else { "set_time" } } else { "update_time_readonly" }));
+        }
         if evict {
             if self.evict_direct {
                 self.ex.evict_expired_direct(VirtualTime::from_millis(t));
@@ -186,6 +195,34 @@ impl Sess {
             s.push_str(&p);
         }
         s
+    }
+}
+
+impl Sess {
+    /// the PHYSICAL content of `data` (every key, also those past their deadline but not evicted):
+    /// `<n> {<key> <pttl | -1 | dead> <value>}`; non-mutating entry points only
+    pub fn phys_dump(&mut self) -> String {
+        let mut keys: Vec<String> = self.ex.get_data().keys().cloned().collect();
+        keys.sort_by(|a, b| key_cmp(a, b));
+        let mut s = keys.len().to_string();
+        for k in keys {
+            let vis = matches!(self.ex.execute_readonly(&Command::Exists(vec![k.clone()])), RespValue::Integer(1));
+            let ttl = if vis { self.pttl(&k).to_string() } else { "dead".to_string() };
+            let v = self.ex.get_data().get(&k).map(value_text).unwrap_or_default();
+            s.push_str(&format!(" {} {} {}", hex(k.as_bytes()), ttl, v));
+        }
+        s
+    }
+
+    /// `expirations.len()` as INFO reports it (`keys_with_expiration`)
+    pub fn nexp(&mut self) -> String {
+        match self.ex.execute(&Command::Info) {
+            RespValue::BulkString(Some(b)) => String::from_utf8_lossy(&b)
+                .lines()
+                .find_map(|l| l.strip_prefix("keys_with_expiration:").map(|x| x.trim().to_string()))
+                .unwrap_or_else(|| "?".into()),
+            _ => "?".into(),
+        }
     }
 }
 
@@ -775,6 +812,9 @@ pub fn report_executor_api(out: &mut Out, prop: &str) {
             }
         }
     }
+    for f in EXECUTOR_ACCESSOR_FNS {
+        table.insert(f.to_string(), executor_fn_coverage(f).unwrap_or("accessor (derived: `&self`, no RespValue in the signature — cannot change the keyspace or produce a reply)").to_string());
+    }
     out.extra.insert("executor_api_coverage(derived from src/redis/executor/mod.rs by build.rs)".into(), json!(table));
 }
 
@@ -1098,6 +1138,30 @@ pub fn gen_counter_cmd(rng: &mut Rng) -> Command {
 
 /// a glob pattern over the key alphabet (`a b c kk é`): fixed shapes and random strings of pattern
 /// bytes (valid UTF-8: the pattern is a `String` in `Command::Keys`)
+/// `[` + ~300 bytes of class body (+ `]` + tail, or left unclosed)
+pub fn long_class_pattern(rng: &mut Rng) -> String {
+    let mut p = String::from("[");
+    if rng.chance(1, 4) {
+        p.push('^');
+    }
+    const BODY: [&str; 10] = ["x", "y", "z", "0-9", "q-m", "\\]", "\\-", "w", "A-Z", "_"];
+    while p.len() < 300 {
+        let piece: &str = *rng.pick(&BODY);
+        p.push_str(piece);
+    }
+    match rng.below(4) {
+        0 => p.push_str("a"),
+        1 => p.push_str("a-k"),
+        _ => {}
+    }
+    match rng.below(3) {
+        0 => {}                    // unclosed: runs to the end of the pattern
+        1 => p.push_str("]"),
+        _ => p.push_str("]*"),
+    }
+    p
+}
+
 pub fn glob_pattern(rng: &mut Rng) -> String {
     const FIXED: [&str; 30] = [
         "a", "?", "??", "???", "a*", "*a", "*k", "k*", "k?", "?k", "[abc]", "[a-c]", "[c-a]", "[^a]", "[^a-b]*", "[ab", "[", "[]", "[^]", "\\a",
@@ -1105,6 +1169,11 @@ pub fn glob_pattern(rng: &mut Rng) -> String {
     ];
     if rng.chance(1, 2) {
         return rng.pick(&FIXED).to_string();
+    }
+    // a LONG class body, closed or not (300 bytes: a model that evaluated its recursive call twice per
+    // byte would never finish), with ranges, escapes and the key's first byte somewhere inside
+    if rng.chance(1, 12) {
+        return long_class_pattern(rng);
     }
     const PIECES: [&str; 14] = ["a", "b", "c", "k", "é", "*", "?", "[", "]", "^", "-", "\\", "x", "kk"];
     (0..rng.range(1, 5)).map(|_| *rng.pick(&PIECES)).collect()
@@ -1372,6 +1441,9 @@ pub fn do_step(out: &mut Out, s: &mut Sess, cmd: &Command, prop: &str, seq: &[St
             "clock".to_string(),
         );
     }
+    for (t, kind) in std::mem::take(&mut s.pending_clock) {
+        out.op(format!("XCLK {} {}", t, kind), "xclk".to_string());
+    }
     ZSET_INCONSISTENT.lock().unwrap().clear();
     let before = s.dump();
     let now = s.unix();
@@ -1435,6 +1507,45 @@ pub fn do_step(out: &mut Out, s: &mut Sess, cmd: &Command, prop: &str, seq: &[St
         None => "adopt".to_string(),
     };
     out.op(opline.clone(), implline);
+    // the transcription of the executor as it is (`Model.Executor`): same command from ITS OWN state
+    // (threaded through the whole sequence), compared on the reply, the physical key set and
+    // `expirations.len()`; after a command it does not cover it adopts the physical state
+    if s.xc {
+        let phys = s.phys_dump();
+        let xop = match (&r, &parts) {
+            (Some(rv), None) if !has_binary_name(cmd) => enc_cmd(cmd, rv),
+            _ => None,
+        };
+        // SETBIT / GETBIT / BatchSet / BatchGet / KEYS <pattern>: `Model.ExecutorX.execXC`
+        let xxop = match (&r, &parts) {
+            (Some(_), None) if xop.is_none() => enc_xcmd(cmd),
+            _ => None,
+        };
+        match (xop, xxop, if r.is_some() && parts.is_none() { stub_op(cmd) } else { None }) {
+            (Some(o), _, _) => {
+                let nexp = s.nexp();
+                out.op(format!("{} XC {} ;; {}", s.now, o, phys), format!("{} | {} | nexp={}", reply, phys, nexp));
+                out.count("xc:executor-transcription-op");
+            }
+            (None, Some(o), _) => {
+                let nexp = s.nexp();
+                out.op(format!("{} X{} ;; {}", s.now, o, phys), format!("{} | {} | nexp={}", reply, phys, nexp));
+                out.count("xc:executor-transcription-xop");
+            }
+            (None, None, Some((o, modelled_reply))) => {
+                // a stub: the transcription says the keyspace is not touched beyond `get_value(key)`;
+                // the reply is compared where the stub looks at a key
+                let nexp = s.nexp();
+                let shown = if modelled_reply { reply.clone() } else { "?".to_string() };
+                out.op(format!("{} XS {} ;; {}", s.now, o, phys), format!("{} | {} | nexp={}", shown, phys, nexp));
+                out.count("xc:executor-transcription-stub");
+            }
+            (None, None, None) => {
+                out.op(format!("{} XADOPT ;; {}", s.now, phys), "xadopt".to_string());
+                out.count("xc:adopt");
+            }
+        }
+    }
     // C17 oracle on the real code
     if r.is_none() {
         out.violation(
@@ -1474,15 +1585,41 @@ pub fn do_step(out: &mut Out, s: &mut Sess, cmd: &Command, prop: &str, seq: &[St
     StepOut { op: opline, reply, before, after, is_err, read_only: ro, modelled }
 }
 
+/// the stub arms of `CommandExecutor::execute` as `Model.ExecutorX.StubCmd`: the op text and whether
+/// the transcription also models the reply (it does for the arms that look at a key)
+pub fn stub_op(cmd: &Command) -> Option<(String, bool)> {
+    let key_stub = |tag: &str, k: &String| Some((format!("{} {}", tag, hk(k)), true));
+    match cmd {
+        Command::ObjectEncoding(k) => key_stub("OBJENC", k),
+        Command::ObjectRefCount(k) => key_stub("OBJREF", k),
+        Command::ObjectIdleTime(k) => key_stub("OBJIDLE", k),
+        Command::ObjectFreq(k) => key_stub("OBJFREQ", k),
+        Command::DebugObject(k) => key_stub("DEBUGOBJ", k),
+        // arms that do not mention `self.data` / `self.expirations`
+        Command::Ping(_) | Command::Info | Command::Time | Command::Select(_) | Command::Echo(_) | Command::FunctionFlush
+        | Command::CommandCommand | Command::CommandCount | Command::ClientSetName(_) | Command::ClientGetName
+        | Command::ClientId | Command::ClientInfo | Command::ObjectHelp | Command::DebugSleep(_) | Command::DebugSet(_, _)
+        | Command::Wait(_, _) | Command::ConfigGet(_) | Command::ConfigSet(_, _) | Command::ConfigResetStat
+        | Command::Auth { .. } | Command::AclWhoami | Command::AclList | Command::AclUsers | Command::AclGetUser { .. }
+        | Command::AclSetUser { .. } | Command::AclDelUser { .. } | Command::AclCat { .. } | Command::AclGenPass { .. }
+        | Command::AclDryrun { .. } | Command::AclLog { .. } | Command::AclLogReset | Command::Unknown(_) => {
+            Some((format!("CONST {}", variant_info(cmd).0), false))
+        }
+        _ => None,
+    }
+}
+
 /// start a fresh executor; emits the RESET line
 pub fn reset(out: &mut Out, now: u64) -> Sess {
-    out.op("RESET".to_string(), "reset".to_string());
-    Sess::new(now)
+    reset_with_epoch(out, now, EpochCfg::Zero)
 }
 
 pub fn reset_with_epoch(out: &mut Out, now: u64, cfg: EpochCfg) -> Sess {
     out.op("RESET".to_string(), "reset".to_string());
-    Sess::with_epoch(now, cfg)
+    out.op(format!("XCFG {} {}", cfg.ms(), now), "xcfg".to_string());
+    let mut s = Sess::with_epoch(now, cfg);
+    s.xc = true;
+    s
 }
 
 /// generated configuration: mostly the default, else legal extremes and realistic values
